@@ -9,6 +9,7 @@ import (
 	"runtime/debug"
 	"strconv"
 	"testing"
+	"time"
 
 	"pgregory.net/rapid"
 
@@ -140,6 +141,25 @@ func runEnum[C any](t *testing.T, rec *evid.Recorder, kind string, cases func(yi
 		}
 		return true
 	})
+}
+
+// watchdog runs f and reports a hang (no return within d) as a failure with signature sig.
+func watchdog(d time.Duration, sig string, f func() *evid.Fail) *evid.Fail {
+	ch := make(chan *evid.Fail, 1)
+	go func() {
+		defer func() {
+			if p := recover(); p != nil {
+				ch <- evid.Failf("panic", "panic: %v\n%s", p, debug.Stack())
+			}
+		}()
+		ch <- f()
+	}()
+	select {
+	case r := <-ch:
+		return r
+	case <-time.After(d):
+		return evid.Failf(sig, "no return within %v", d)
+	}
 }
 
 func js(v interface{}) string {
